@@ -211,7 +211,7 @@ def base_scenario(rng, index):
     rnd_no = index // len(MATRIX)
     if prior == 'absent' and route in ('lib', 'writep8', 'luamin', 'luafmt',
                                        'build', 'build-minify') and \
-            rnd_no % 3 == 1:
+            (rnd_no + index) % 3 == 1:
         # the destination name is a symbolic link whose target does not
         # exist (yet): nothing is there, and nothing may be after a failure
         sc['dest_dangling'] = True
@@ -596,6 +596,18 @@ def _setup(w, sc):
                 argv += ['--lua-format']
             elif how == 'out-garbage':
                 w.put(dest_rel, b'garbage, not a cart\n')
+            elif how == 'out-unloadable-and-failing-writer':
+                if os.path.islink(w.p(dest_rel)):
+                    os.unlink(w.p(dest_rel))
+                if sc['fmt'] == 'p8':
+                    # a good cart for PICO-8, whose include target is not
+                    # here at the moment
+                    broken = dict(other)
+                    broken['code'] = b'kept=1\n#include not_here.lua\n'
+                    w.put(dest_rel, refcodec.encode_p8(broken))
+                else:
+                    w.put(dest_rel, b'\x89PNG\r\n\x1a\n' + b'junk' * 40)
+                argv += ['--lua-format']
             elif how == 'keep-names-missing':
                 argv += ['--lua-minify', '--keep-names-from-file',
                          w.p('in/nonames.txt')]
@@ -1054,6 +1066,11 @@ def run_job(job):
             irng.sample(list(faults), min(len(faults), 12))
         if base['fmt'] == 'png' and {'kind': 'CODE-TOO-BIG'} not in pick:
             pick.append({'kind': 'CODE-TOO-BIG'})
+        if route.startswith('build'):
+            # (round 8) two failure sources at once: the existing OUT cannot
+            # be loaded, and the writer fails
+            pick.append({'kind': 'ARG-BAD',
+                         'how': 'out-unloadable-and-failing-writer'})
         for fl in pick:
             sc = dict(base, fault=dict(fl))
             if fl['kind'] == 'RECURSION':
@@ -1187,4 +1204,4 @@ def coverage_extra(prop, tier, agg, jobs_):
     }
 
 
-RULE_MORE = {'C11': ' Added in the build rounds: multi-file commands (per-destination attribution through a wrapper on file.to_file), a write that succeeds before the faulted one, .rom destination, TMP-ERR (no scratch file), broken error stream while warnings are emitted, writer exceptions of 13 types incl. the abstract BaseLuaWriter, glyph code, destination as symbolic link, names with spaces and dots, relative arguments and cwd, TMPDIR in the destination directory, earlier successful / failed operations in the same process, and the rule that a failure the code raises after the encoder returned counts while a success reported after a fired fault must leave either the old file or the intended cart. Round 6: the cart a game was loaded from may be moved away before the game is saved under another name. Round 7: a message stream that accepts writes but cannot be flushed (block-buffered pipe whose reader is gone); the token list of a game edited after an earlier save with the same writer, so that the .p8 encoder is handed code that does not re-parse (counts as a fired fault whatever status is reported).'}
+RULE_MORE = {'C11': ' Added in the build rounds: multi-file commands (per-destination attribution through a wrapper on file.to_file), a write that succeeds before the faulted one, .rom destination, TMP-ERR (no scratch file), broken error stream while warnings are emitted, writer exceptions of 13 types incl. the abstract BaseLuaWriter, glyph code, destination as symbolic link, names with spaces and dots, relative arguments and cwd, TMPDIR in the destination directory, earlier successful / failed operations in the same process, and the rule that a failure the code raises after the encoder returned counts while a success reported after a fired fault must leave either the old file or the intended cart. Round 6: the cart a game was loaded from may be moved away before the game is saved under another name. Round 7: a message stream that accepts writes but cannot be flushed (block-buffered pipe whose reader is gone); the token list of a game edited after an earlier save with the same writer, so that the .p8 encoder is handed code that does not re-parse (counts as a fired fault whatever status is reported). Round 8: destination names that are dangling symbolic links (nothing is there before, nothing may be there after a failure); a stale <name>_fmt sibling beside a cart that `luafmt --overwrite` fails to rewrite; build with two failure sources at once (the existing OUT cannot be loaded - a cart with a missing include, a broken PNG - and the writer fails).'}
